@@ -24,8 +24,15 @@ import (
 var daDenoms = []string{"urise", "uusdc"}
 
 func raw(d sdkmath.LegacyDec) *big.Int { return d.BigInt() }
-func decRaw(s string) *big.Int         { return sdkmath.LegacyMustNewDecFromStr(s).BigInt() }
-func pair(a, b string) string          { return "(" + a + ", " + b + ")" }
+func decRaw(s string) *big.Int         { return decRawOr(s) } // a stored string that does not parse reads as 0 here (the model is told separately)
+func decOpt(s string) string {
+	d, err := sdkmath.LegacyNewDecFromStr(s)
+	if err != nil {
+		return "None"
+	}
+	return emit.Some(emit.Z(d.BigInt()))
+}
+func pair(a, b string) string { return "(" + a + ", " + b + ")" }
 
 // ---------------------------------------------------------------- principals (DA, tallies)
 
@@ -210,8 +217,8 @@ func (w *world) dumpDA(ctx sdk.Context, now time.Time) daDump {
 		panic(err)
 	}
 	nact = len(vs)
-	dd.term = fmt.Sprintf("{| di_state := %s; di_bank := Da.bank_of %s; di_nact := %d; di_sft := %s; di_cc := %d; di_slash_epoch := %d |}",
-		st, emit.List(rows), nact, emit.Z(decRaw(p.SlashFaultThreshold)), k.GetChallengeCounter(ctx), p.SlashEpoch)
+	dd.term = fmt.Sprintf("{| di_state := %s; di_bank := Da.bank_of %s; di_nact := %d; di_sft := %s; di_sfr := %s; di_cc := %d; di_slash_epoch := %d |}",
+		st, emit.List(rows), nact, emit.Z(decRaw(p.SlashFaultThreshold)), decOpt(p.SlashFraction), k.GetChallengeCounter(ctx), p.SlashEpoch)
 	return dd
 }
 
